@@ -130,7 +130,10 @@ namespace occa {
     const std::string iteratorPtrName = iteratorName + "_ptr";
 
     scope.add(iteratorLengthName, indices.length());
-    scope.add(iteratorPtrName, indices);
+    // An empty index array has no memory to take the type from
+    scope.add(
+      scopeKernelArg(iteratorPtrName, indices.memory(), dtype::get<int>(), true)
+    );
 
     std::stringstream ss;
 
